@@ -138,12 +138,13 @@ def run(ctx):
     cov = dict(info)
     cov["trusted_base"] = vlib.STD_TRUSTED + [
         "Section hypothesis of Properties/C14.v about the regex engine (Envoy safe_regex = RE2): an alternation of valid HTTP method names fully matches exactly its members; user-supplied path/header regexes are an uninterpreted function shared by evaluator and specification",
-        "the SPIFFE patterns the code builds are modelled segment-wise (host, path segments; in spliced text '.' matches any character, every other character itself; [^/]+ = a non-empty segment); the emitted regex STRING is compared with the implementation's on every case, and its meaning is tied to RE2 by the Go oracle (Go regexp, fully anchored) and by sampled evaluation points replayed in Coq",
+        "the SPIFFE patterns the code builds are modelled segment-wise (host, path segments; regex text is read by raw_match: backslash escapes, '.' matches any character, every other character itself; [^/]+ = a non-empty segment; names go through the model's quote_meta as through regexp.QuoteMeta); the emitted regex STRING is compared with the implementation's on every case, and its meaning is tied to RE2 by the Go oracle (Go regexp, fully anchored) and by sampled evaluation points replayed in Coq",
         "connection model: URI SAN of the client certificate and URI of the first x-forwarded-client-cert element; trust domains are authenticated by TLS (hosts_ok hypothesis); on HTTP listeners that expect peered traffic a peer identity is only established by the local mesh gateway (mirrors makeRBACRules' expectXFCC)",
         "reference semantics of the Go oracle: consul's own IntentionPrecedenceSorter and connect.IntentionMatch, cross-checked on every case against state.Store.IntentionDecision; first matching permission decides, no match falls to the default policy (service-intentions documentation)",
         "sort.Sort(IntentionPrecedenceSorter) is modelled as a stable insertion sort (Go's pdqsort IS an insertion sort up to 12 elements; lists a store hands over have no comparator ties, so any sort gives the same order)",
         "modelled, not verified: JWT requirements (providerMap = nil); sameness groups (expanded before); enterprise namespaces/partitions are in the model but the community-edition build only exercises 'default'; wildcard partition/peer panics; Envoy itself (the evaluator follows the RBAC filter's documented semantics)"]
-    assumptions = ["regex engine on method alternations", "segment-wise reading of built SPIFFE patterns", "TLS authenticates trust domains"]
+    assumptions = ["regex engine on method alternations", "segment-wise reading of built SPIFFE patterns", "TLS authenticates trust domains",
+                   "partitions (still spliced unquoted) contain no regex metacharacter"]
     if not ok:
         cov.update({"evaluations": 0, "distinct_nontrivial": 0, "rule": "proof stage failed", "samples": []})
         return ctx.finish(cov, assumptions)
@@ -200,7 +201,8 @@ def run(ctx):
             impl_errs.append(c)
 
     # ---- model vs implementation, inside Coq ----
-    shards = [coq_cases[k:k + PER_SHARD] for k in range(0, len(coq_cases), PER_SHARD)]
+    per = PER_SHARD if ctx.tier == "thorough" else max(1, -(-len(coq_cases) // 6))   # quick: one round of 6 shards
+    shards = [coq_cases[k:k + per] for k in range(0, len(coq_cases), per)]
     texts = [shard_text(s, tab if k == 0 else []) for k, s in enumerate(shards)]
     phases["parse_and_write_cases"] = round(time.time() - t1, 1)
     t1 = time.time()
@@ -259,7 +261,7 @@ def run(ctx):
     cov.update({
         "evaluations": total,
         "distinct_nontrivial": len(distinct),
-        "rule": "evaluations = intention lists translated by the real makeRBACRules (exhaustive valid sets over sources {web, api, web.v1, *} x {local, peer1} x destinations {db, *} x {allow, deny, 3 permission lists}, both defaults, TCP and HTTP; random larger sets; store-collected lists via IntentionMatchOne; a malformed stream); distinct_nontrivial = distinct non-empty RBAC outputs among the cases evaluated in Coq against the model",
+        "rule": "evaluations = intention lists translated by the real makeRBACRules (exhaustive valid sets over sources {web, api, web.v1, *} (random streams add a|b, c++, x(y) x {local, peer1} x destinations {db, *} x {allow, deny, 3 permission lists}, both defaults, TCP and HTTP; random larger sets; store-collected lists via IntentionMatchOne; a malformed stream); distinct_nontrivial = distinct non-empty RBAC outputs among the cases evaluated in Coq against the model",
         "traces_validated_against_impl": len(coq_cases),
         "model_mismatches": len(mism),
         "tabulated_helper_rows": len(tab),
